@@ -29,6 +29,15 @@
 			   sizeof(uint8_t) +\
 			   2 * sizeof(char) + sizeof(time_t))
 
+/*
+ * qb_vsnprintf_deserialize() is not told how long its input is: it scans
+ * the format string up to its NUL and then reads at most 4 argument bytes
+ * per format character (plus one last 8 byte argument).  Decoding from a
+ * copy of the message that is followed by this many zero bytes keeps it
+ * inside the buffer whatever the message contains.
+ */
+#define BB_MSG_BUF_SIZE (5 * QB_LOG_MAX_LEN + 16)
+
 
 static void
 _blackbox_reload(int32_t target)
@@ -280,6 +289,8 @@ qb_log_blackbox_print_from_file(const char *bb_filename)
 		uint32_t msg_len;
 		struct tm *tm;
 		char message[QB_LOG_MAX_LEN];
+		char msg_buf[BB_MSG_BUF_SIZE];
+		size_t hdr_size;
 
 		bytes_read = qb_rb_chunk_read(instance, chunk, max_size, 0);
 
@@ -323,10 +334,29 @@ qb_log_blackbox_print_from_file(const char *bb_filename)
 #endif /* S_SPLINT_S */
 			goto cleanup;
 		}
+		/*
+		 * everything up to and including the message length must lie
+		 * inside the chunk (BB_MIN_ENTRY_SIZE counts a time_t, new
+		 * dumps carry a struct timespec)
+		 */
+		hdr_size = 4 * sizeof(uint32_t) + sizeof(uint8_t) + fn_size +
+			(have_timespecs ? sizeof(struct timespec) : sizeof(time_t));
+		if (hdr_size > bytes_read) {
+#ifndef S_SPLINT_S
+			printf("ERROR Corrupt file: fn_size way too big %" PRIu32 "\n", fn_size);
+			err = -EIO;
+#endif /* S_SPLINT_S */
+			goto cleanup;
+		}
 		ptr += sizeof(uint32_t);
 
 		function = ptr;
 		ptr += fn_size;
+		if (function[fn_size - 1] != '\0') {
+			printf("ERROR Corrupt file: function name not terminated\n");
+			err = -EIO;
+			goto cleanup;
+		}
 
 		/* timestamp size & content */
 		if (have_timespecs) {
@@ -351,7 +381,8 @@ qb_log_blackbox_print_from_file(const char *bb_filename)
 		}
 		/* message length */
 		memcpy(&msg_len, ptr, sizeof(uint32_t));
-		if (msg_len > QB_LOG_MAX_LEN || msg_len <= 0) {
+		if (msg_len > QB_LOG_MAX_LEN || msg_len <= 0 ||
+		    msg_len > bytes_read - hdr_size) {
 #ifndef S_SPLINT_S
 			printf("ERROR Corrupt file: msg_len out of bounds %" PRIu32 "\n", msg_len);
 			err = -EIO;
@@ -362,9 +393,12 @@ qb_log_blackbox_print_from_file(const char *bb_filename)
 		ptr += sizeof(uint32_t);
 
 		/* message content */
-		len = qb_vsnprintf_deserialize(message, QB_LOG_MAX_LEN, ptr);
+		memcpy(msg_buf, ptr, msg_len);
+		memset(msg_buf + msg_len, 0, sizeof(msg_buf) - msg_len);
+		len = qb_vsnprintf_deserialize(message, QB_LOG_MAX_LEN, msg_buf);
 		assert(len > 0);
-		message[len] = '\0';
+		/* len counts the terminating NUL the decoder has stored; it can
+		 * be QB_LOG_MAX_LEN, so message[len] may not be written */
 		len--;
 		while (len > 0 && (message[len] == '\n' || message[len] == '\0')) {
 			message[len] = '\0';
